@@ -954,6 +954,7 @@ def construct(eng, st, cls, args, kwargs, node):
                 yield st, ExcVal(TypeError, (), eng.where(st, node) if node else "")
                 return
             loc = st.alloc(Rec(cls, vals), cls.__name__)
+            st.ghost["constructed"] = frozenset(st.ghost.get("constructed", frozenset())) | {loc.id}
             post = inspect.getattr_static(cls, "__post_init__", None)
             if isinstance(post, types.FunctionType):
                 for s, r in eng.call(st, post, [loc], {}, node):
@@ -964,6 +965,7 @@ def construct(eng, st, cls, args, kwargs, node):
     if mod.startswith("unified_planning"):
         init = inspect.getattr_static(cls, "__init__", None)
         loc = st.alloc(Rec(cls, {}), cls.__name__)
+        st.ghost["constructed"] = frozenset(st.ghost.get("constructed", frozenset())) | {loc.id}
         if isinstance(init, types.FunctionType):
             for s, r in eng.call(st, init, [loc] + list(args), kwargs, node):
                 yield s, (r if isinstance(r, ExcVal) else loc)
